@@ -74,10 +74,18 @@ class StubRng:
     def pick_at(self, i):
         return self.picks[i] if i < len(self.picks) else self.default_pick
 
+    conf = None       # configured (interactive, query, batch) probabilities, set by the harness
+    seen_p = None     # the probability vector the generator last handed to choice
+
     def choice(self, a, p=None):
         k = self.pick_at(self.pi)
         self.pi += 1
-        if p is not None and not (p[k] > 0):
+        if p is not None:
+            self.seen_p = [float(x) for x in p]
+        if self.conf is not None:
+            if not (self.conf[k] > 0):
+                self.invalid = True       # the stub picked a class the configuration excludes
+        elif p is not None and not (p[k] > 0):
             self.invalid = True
         return a[k]
 
@@ -96,6 +104,7 @@ def gen_structure(tps, wmean, npipes, nops, ratio, probs, c0=0, c1=0, c2=0, zc0=
     g = WorkloadGenerator(**_params(tps, wmean, npipes, nops, ratio, probs))
     rng = StubRng([zc0, zc1][:npipes], [zp0, zp1, zp2], [zg0], [c0, c1, c2][:npipes])
     rng.default_pick = [k for k in range(3) if probs[k] > 0][0]      # later events: first class that can occur
+    rng.conf = list(probs)
     g.rng = rng
     mean_ticks = int(wmean * tps)      # exact on the chosen domains (dyadic or integral)
     seen_ids = set()
@@ -109,6 +118,11 @@ def gen_structure(tps, wmean, npipes, nops, ratio, probs, c0=0, c1=0, c2=0, zc0=
         ps = g.run_one_tick()
         if rng.invalid:
             return ""
+        if rng.seen_p is not None:
+            # priorities follow the configured probabilities: the class distribution used is the configured one (normalised)
+            tot = probs[0] + probs[1] + probs[2]
+            if len(rng.seen_p) != 3 or any(abs(rng.seen_p[k] - probs[k] / tot) > 1e-12 for k in range(3)):
+                return "C15:class_probabilities_differ_from_configuration"
         if not ps:
             if last_event is not None and expected_gap is not None and t - last_event >= expected_gap:
                 return "C15:event_missing_after_gap"
